@@ -25,13 +25,19 @@ class Tools:
         san = flavour == "asan"
         import hashlib
         tag = hashlib.md5((vlib.REPO + "|" + self.build).encode()).hexdigest()[:8]
-        self.deptool = vlib.cxx_build(
-            os.path.join(vlib.WORK, "bin", "deptool-%s-%s" % (flavour, tag)), [os.path.join(HERE, "deptool.cc")],
-            flags="-I%s/src" % self.build, libs="-L%s/lib -lrime -lglog -Wl,-rpath,%s/lib" % (self.build, self.build), san=san)
+        out = os.path.join(vlib.WORK, "bin", "deptool-%s-%s" % (flavour, tag))
+        tmp = "%s.tmp%d" % (out, os.getpid())
+        # build under a private name, then rename: another check may be executing the previous binary
+        vlib.cxx_build(tmp, [os.path.join(HERE, "deptool.cc")], flags="-I%s/src" % self.build,
+                       libs="-L%s/lib -lrime -lglog -Wl,-rpath,%s/lib" % (self.build, self.build), san=san)
+        os.replace(tmp, out)
+        self.deptool = out
         self.killso = os.path.join(vlib.WORK, "bin", "killpoint.so")
         src = os.path.join(HERE, "killpoint.c")
         if not os.path.exists(self.killso) or os.path.getmtime(self.killso) < os.path.getmtime(src):
-            vlib.sh("gcc -shared -fPIC -O1 -o %s %s -ldl" % (self.killso, src), check=True, timeout=120)
+            tmpso = "%s.tmp%d" % (self.killso, os.getpid())
+            vlib.sh("gcc -shared -fPIC -O1 -o %s %s -ldl" % (tmpso, src), check=True, timeout=120)
+            os.replace(tmpso, self.killso)
         self.env = {"GLOG_logtostderr": "1", "ASAN_OPTIONS": "detect_leaks=0", "UBSAN_OPTIONS": "print_stacktrace=1"}
 
     # -- deployment
@@ -63,6 +69,21 @@ class Tools:
                 res[f[0]] = (f[1], f[2])
         return res
 
+    def info(self, ws):
+        """-> (schema_list or None, {schema: dict(dict=, prism=, packs=[], deps=[])}) as the compiled configs say"""
+        rc, out, err = vlib.sh2([self.deptool, "info", os.path.join(ws, "user", "build")], env=self.env, timeout=120)
+        lst, infos = None, {}
+        for l in out.split("\n"):
+            f = l.split(" ")
+            if f[0] == "list":
+                lst = [x for x in f[1:] if x]
+            elif f[0] == "schema" and len(f) == 6:
+                kv = dict(x.split("=", 1) for x in f[2:])
+                infos[f[1]] = dict(dict=None if kv["dict"] == "-" else kv["dict"], prism=None if kv["prism"] == "-" else kv["prism"],
+                                   packs=[] if kv["packs"] == "-" else kv["packs"].split(","),
+                                   deps=[] if kv["deps"] == "-" else kv["deps"].split(","))
+        return lst, infos
+
     def dump(self, ws, texts=None):
         """-> (rc, {artefact: section text}); texts: file with extra reverse-lookup keys"""
         cmd = [self.deptool, "dump", os.path.join(ws, "user", "build")] + ([texts] if texts else [])
@@ -75,7 +96,7 @@ class Tools:
                 secs[cur] = []
             if cur is not None:
                 secs[cur].append(l)
-        return rc, {k: "\n".join(v) for k, v in secs.items()}
+        return rc, {k: "\n".join(v).rstrip("\n") for k, v in secs.items()}
 
 
 # ---------------------------------------------------------------------------
